@@ -256,6 +256,11 @@ def r2(ctx, lib, rh, rp):
         if ctx.floor(rule, 'from_escaped_string in read_paths', len(dec), 1, rp.where()):
             calls = deep_slice_calls(lib, rp, [dec[0].args[0]], 1)
             trims = [(b, c) for b, c in calls if c.matches(TRIM)]
+            # a trimming function handed to an adaptor as a value (`.map(str::trim_end)`) is a trim as well
+            fnvals = [k.get('fn') for k in backslice(rp, [dec[0].args[0]]).consts if 'fn' in k and re.search(TRIM, k.get('fn') or '')]
+            ctx.check(not fnvals, rule, rp.path + '|path-payload-fn', dec[0].where(), 'no white-space trimming function is applied to the path payload through an adaptor',
+                      'the path payload passes %s (handed to an adaptor as a function value): a file name with trailing white space is read back without it - `remove` then acts on the file of that '
+                      'other name if there is one of the same length, a file that was never reported' % (fnvals[0] if fnvals else ''))
             for b_, c_, why in broad_strippers(lib, calls):
                 ctx.violation(rule, rp.path + '|path-payload-strip', c_.where(), 'the path payload passes %s, but %s: characters the encoder leaves unescaped (e.g. the C1 controls U+0080..U+009F, NBSP) are cut off the end of file names' % (c_.path.rsplit('::', 1)[-1], why))
             ctx.check(not trims, rule, rp.path + '|path-payload', dec[0].where(), 'the path payload is cut out of the line without a white-space trim (%s)' % ','.join(sorted({c.path.rsplit('::', 1)[-1] for _, c in calls if re.search(r'strip_|trim_end_matches|trim_start_matches|index', c.path)})),
